@@ -30,6 +30,7 @@ OBLIGATIONS = [
     "VgiVerif.C27.C27_view",
     "VgiVerif.C27.C27_view_history",
     "VgiVerif.C27.C27_no_orphan",
+    "VgiVerif.C27.C27_close_clears",
 ]
 TRUSTED = [
     "symbolic AEAD / abstract base64 codec as in C25; fresh session ids and nonces; integral clock",
@@ -64,13 +65,16 @@ FARM = [{"server_id": "abcdef012345", "key": 0, "default_ttl": 300}]
 LETTERS = "ocun"
 
 
-def script_actions(letters: str, label0: int) -> list[Any]:
+def script_actions(letters: str, label0: int, now: int = 1000) -> list[Any]:
+    """`S` = the registry is shut down while the method runs, `R` = a reaper tick whose clock is far ahead (both from another thread)."""
     out: list[Any] = []
     k = label0
     for ch in letters:
         if ch == "o":
             k += 1
             out.append(["o", k, None])
+        elif ch == "R":
+            out.append(["R", now + 10**6])
         else:
             out.append(ch)
     return out
@@ -79,6 +83,8 @@ def script_actions(letters: str, label0: int) -> list[Any]:
 def pattern(letters: str) -> str:
     """Canonical class of a script for finding keys."""
     core = letters.replace("n", "").replace("u", "")
+    if "S" in core or "R" in core:
+        return "ended-mid-request"
     if "co" in core:
         return "close-then-open"
     return core or "none"
@@ -140,6 +146,7 @@ class Bench:
             proxy.run(script=json.dumps({"actions": actions, "swallow": swallow}))
         except RpcError:
             pass
+        self.w.settle()
         last = rec.last
         obs = S.parse_post(last["status"], last["headers"], last["content"])
         new_calls = self.w.impl.calls[n_calls:]
@@ -194,11 +201,12 @@ class Bench:
             if draining:
                 farm.drain(0, True)
                 r = self.model("C25.step", {"net": self.net, "op": {"op": "drain", "wk": 0, "b": True}})
-            requests = [script_actions(letters, self.label)]
+            requests = [script_actions(letters, self.label, self.rig.clock.now)]
             self.label += letters.count("o")
             for f in follow:
-                requests.append(script_actions(f, self.label))
+                requests.append(script_actions(f, self.label, self.rig.clock.now))
                 self.label += f.count("o")
+            env_seen = False  # has anything ended a session behind the client's back in this case?
             if mode == "view":
                 cm = conn.with_session_token(token=tok0)
                 view = cm.__enter__()
@@ -216,6 +224,7 @@ class Bench:
                 live_before = set(self.w.registry._entries)
                 obs = self.call(proxy, rec, actions, swallow, client)
                 step = {**case, "request": ri, "actions": actions}
+                env_seen = env_seen or "e" in obs["log"]
                 # ---------------- O: opt-in / drain
                 accept_sent = (obs["sent_accept"] or "").strip().lower() == "true"
                 if obs["new_sids"] and (not accept_sent or draining):
@@ -224,7 +233,7 @@ class Bench:
                     self.ok = False
                 active = obs["sent_token"] is not None and obs["outcome"] != "lost"
                 for a, out in zip(actions, obs["log"]):
-                    if isinstance(a, list):  # an open
+                    if isinstance(a, list) and a[0] == "o":  # an open
                         if isinstance(out, list) and out[0] == "o":
                             active = True
                         elif draining and accept_sent and not active and out != ["x", "draining"]:
@@ -232,7 +241,7 @@ class Bench:
                             self.ok = False
                     elif a == "c":
                         active = False
-                if draining and accept_sent and obs["sent_token"] is None and not swallow and actions and isinstance(actions[0], list) \
+                if draining and accept_sent and obs["sent_token"] is None and not swallow and actions and isinstance(actions[0], list) and actions[0][0] == "o" \
                         and obs["kind"] != "server_draining":
                     ctx.fail(step, "C27:drain-error-kind", f"response error kind {obs['kind']} for an open on a draining worker")
                     self.ok = False
@@ -249,14 +258,24 @@ class Bench:
                     owned = self.owned_live(client)
                     designated = self.sid_of(tok) if tok is not None else None
                     if tok is None and owned:
-                        ctx.fail(step, f"C27:orphan:{pattern(''.join('o' if isinstance(a, list) else a for a in actions))}",
+                        ctx.fail(step, f"C27:orphan:{pattern(''.join((a if isinstance(a, str) else ('o' if a[0] == 'o' else 'R')) for a in actions))}",
                                  f"the view holds no token but the registry keeps session(s) {owned} opened through it")
                         self.ok = False
                     elif tok is not None and designated not in owned:
-                        ctx.fail(step, "C27:stale-token", f"the view's token designates {designated}, live sessions of the view: {owned}")
-                        self.ok = False
+                        if not env_seen and owned == []:
+                            ctx.fail(step, "C27:stale-token", f"the view's token designates {designated}, live sessions of the view: {owned}")
+                            self.ok = False
+                        elif owned:
+                            ctx.fail(step, "C27:orphan:untracked-session", f"the view tracks {designated} but {owned} are live for it")
+                            self.ok = False
                     elif tok is not None and owned != [designated]:
                         ctx.fail(step, "C27:orphan:extra-session", f"the view tracks {designated} but {owned} are live for it")
+                        self.ok = False
+                    # "cleared on close": the method's last session call was close_session() -> the view holds nothing
+                    life = [x for x in obs["log"] if x == "c" or (isinstance(x, list) and x[0] == "o")]
+                    if life and life[-1] == "c" and view.current_session_token() is not None:
+                        ctx.fail(step, "C27:close-not-cleared:" + ("session-ended-mid-request" if "e" in obs["log"] else "plain"),
+                                 "the method called close_session() last, yet the view still holds a token")
                         self.ok = False
                 # ---------------- K
                 if view is not None:
@@ -265,10 +284,10 @@ class Bench:
                     if r is not None:
                         mr = r["resp"]
                         model = {"outcome": mr["outcome"], "log": S.canon_model_log(mr["log"]), "session": mr["session"], "close": mr["close"],
-                                 "closed": r["closed"], "token": r["view"]["token"], "closedFlag": r["view"]["closedFlag"]}
+                                 "closed": sorted(r["closed"]), "token": r["view"]["token"], "closedFlag": r["view"]["closedFlag"]}
                         tok = view.current_session_token()
                         real = {"outcome": obs["outcome"], "log": obs["log"], "session": farm.sym(obs["session"]) if obs["session"] else None,
-                                "close": obs["close"], "closed": obs["closed_states"], "token": farm.sym(tok) if tok else None,
+                                "close": obs["close"], "closed": sorted(obs["closed_states"]), "token": farm.sym(tok) if tok else None,
                                 "closedFlag": bool(view._closed)}
                         if model != real:
                             ctx.mismatch(step, model, real, "view call: model vs implementation")
@@ -280,9 +299,10 @@ class Bench:
                                                                         "script": [S.model_action(a) for a in actions], "swallow": swallow}})
                     if r is not None:
                         mr = r["obs"]["resp"]
-                        model = {"outcome": mr["outcome"], "log": S.canon_model_log(mr["log"]), "session": mr["session"], "close": mr["close"], "closed": r["closed"]}
+                        model = {"outcome": mr["outcome"], "log": S.canon_model_log(mr["log"]), "session": mr["session"], "close": mr["close"],
+                                 "closed": sorted(r["closed"])}
                         real = {"outcome": obs["outcome"], "log": obs["log"], "session": farm.sym(obs["session"]) if obs["session"] else None,
-                                "close": obs["close"], "closed": obs["closed_states"]}
+                                "close": obs["close"], "closed": sorted(obs["closed_states"])}
                         if model != real:
                             ctx.mismatch(step, model, real, "plain call: model vs implementation")
                             self.ok = False
@@ -365,10 +385,22 @@ def all_cases(ctx: Any) -> list[dict[str, Any]]:
             for resumed, swallow in itertools.product((False, True), (False, True)):
                 cases.append({"kind": "script", "script": s1, "mode": "view", "resumed": resumed, "draining": False, "swallow": swallow,
                               "follow": [s2, "u"]})
+    # sessions ended by the environment WHILE the method runs (registry shutdown / reaper tick from another thread):
+    # every script of length <= 3 over {o,c,u,S,R} that contains one, through a view
+    for n in (1, 2, 3):
+        for p in itertools.product("ocuSR", repeat=n):
+            sc = "".join(p)
+            if "S" not in sc and "R" not in sc:
+                continue
+            for resumed, swallow in itertools.product((False, True), (False, True)):
+                if not full and n == 3 and rng.random() < 0.5:
+                    continue
+                cases.append({"kind": "script", "script": sc, "mode": "view", "resumed": resumed, "draining": False, "swallow": swallow,
+                              "follow": [["u"], ["o"], ["c", "o"]][len(cases) % 3]})
     # longer random scripts and longer view sequences
     for _ in range(ctx.budget(150, 4000)):
         n = rng.choice([5, 6, 7, 8, 12])
-        s = "".join(rng.choice("ooccun") for _ in range(n))
+        s = "".join(rng.choice("ooccunooccunSR") for _ in range(n))
         cases.append({"kind": "script", "script": s, "mode": "view", "resumed": rng.random() < 0.5, "draining": rng.random() < 0.2,
                       "swallow": rng.random() < 0.5,
                       "follow": ["".join(rng.choice("ocun") for _ in range(rng.randrange(4))) for _ in range(rng.choice([1, 2, 5]))]})
@@ -376,6 +408,11 @@ def all_cases(ctx: Any) -> list[dict[str, Any]]:
 
 
 CORPUS: list[dict[str, Any]] = [
+    # the resumed session is swept away while the method runs, then the method closes it: the client must still drop its token
+    {"kind": "script", "script": "uSc", "mode": "view", "resumed": True, "draining": False, "swallow": False, "follow": ["u", "o"]},
+    {"kind": "script", "script": "Rc", "mode": "view", "resumed": True, "draining": False, "swallow": False, "follow": ["o"]},
+    {"kind": "script", "script": "oSc", "mode": "view", "resumed": False, "draining": False, "swallow": False, "follow": ["u"]},
+    {"kind": "script", "script": "oRu", "mode": "view", "resumed": False, "draining": False, "swallow": True, "follow": ["c", "o"]},
     {"kind": "script", "script": "co", "mode": "view", "resumed": True, "draining": False, "swallow": False, "follow": ["u"]},   # DESIGN §7.1
     {"kind": "script", "script": "co", "mode": "view", "resumed": False, "draining": False, "swallow": False, "follow": ["u"]},
     {"kind": "script", "script": "oc", "mode": "view", "resumed": False, "draining": False, "swallow": False, "follow": ["u"]},
